@@ -58,10 +58,10 @@ type Gen struct {
 	Decls []*Decl
 	n     int
 	// knobs
-	Basics     []string
-	MaxDepth   int
-	AllowOdd   bool // func/chan/interface/uintptr/unsafe.Pointer leaves
-	AllowArray bool
+	Basics        []string
+	MaxDepth      int
+	AllowOdd      bool // func/chan/interface/uintptr/unsafe.Pointer leaves
+	AllowArray    bool
 	NoEmptyStruct bool // zero-size types make addresses meaningless (Go aliases them)
 }
 
